@@ -251,18 +251,45 @@ def SetOp.toOp (o : SetOp) : AstStore.Op :=
   | .one => .o1 o.x o.t
   | .two => .o2 o.x o.t
 
+/-- Whether `update_property_info` treats a token as a name is a property of its spelling, fixed when the token is created.  In the
+    declaration map of the import a token is therefore named `2 * index` when it is spelt like an identifier and `2 * index + 1`
+    otherwise, and the map starts from the state in which every even token has `isName = true`, every odd one `false`. -/
+def initData : Data := { attrs := fun t => { isName := t % 2 == 0 } }
+
+def encTok (isName : Bool) (t : Nat) : Nat := 2 * t + (if isName then 0 else 1)
+
+def Ev.mapTok (f : Nat → Nat) : Ev → Ev
+  | .varDecl a t o => .varDecl a (f t) o
+  | .funcDecl a t o => .funcDecl a (f t) o
+  | .enumDecl a t o => .enumDecl a (f t) o
+  | .ref a t => .ref a (f t)
+  | e => e
+
+/-- the declaration map of the import together with the calls that produced it: the only way to change `data` is `emit`, so the state is
+    by construction the result of running the logged events (`ok`) -/
+structure Log where
+  evs : Array Ev
+  data : Data
+  ok : data = runEvents initData evs.toList
+
+def Log.empty : Log := ⟨#[], initData, rfl⟩
+
+def Log.emit (l : Log) (e : Ev) : Log :=
+  ⟨l.evs.push e, l.data.step e, by rw [l.ok]; simp [runEvents, List.foldl_append]⟩
+
 structure St where
   nodes : Array NodeRec := #[]
   files : List Str := []
   toks : Array Tok := #[]
   back : Option Nat := none       -- tokenList.back()
   ops : Array SetOp := #[]       -- the importer touches the AST only through `astOperand1` / `astOperand2`
-  data : Data := {}
+  log : Log := Log.empty          -- mDeclMap / mNotFound / mVarId and the token attributes they write
   funcs : Array Func := #[]
   nVars : Nat := 0
   nEnums : Nat := 0
   nScopes : Nat := 0
-  events : Array Ev := #[]        -- the declaration-map events in program order (for the evidence / theorem tie)
+
+def St.data (st : St) : Data := st.log.data
 
 abbrev M := StateT St (Except Err)
 
@@ -406,8 +433,7 @@ def addtoken (n : NodeRec) (s : Str) : M Nat := do
     | none => failM (.ub "tokenList.back() is null after addtoken(\"\")")
   else
     let id := st.toks.size
-    let data := if identLike s then st.data else { st.data with attrs := updAttr st.data.attrs id (fun a => { a with isName := false }) }
-    set { st with toks := st.toks.push { str := s, file := n.pos.file, line := n.pos.line, col := n.pos.col }, back := some id, data := data }
+    set { st with toks := st.toks.push { str := s, file := n.pos.file, line := n.pos.line, col := n.pos.col }, back := some id }
     return id
 
 def backTok : M (Option Tok) := do
@@ -427,7 +453,16 @@ def setLink (a b : Nat) : M Unit :=
 def op1 (x : Nat) (t : Option Nat) : M Unit := modify fun st => { st with ops := st.ops.push ⟨.one, x, t⟩ }
 def op2 (x : Nat) (t : Option Nat) : M Unit := modify fun st => { st with ops := st.ops.push ⟨.two, x, t⟩ }
 
-def emitEv (e : Ev) : M Unit := modify fun st => { st with data := st.data.step e, events := st.events.push e }
+/-- the name of token `i` in the declaration map -/
+def encOf (toks : Array Tok) (i : Nat) : Nat := encTok (match toks[i]? with | some t => identLike t.str | none => true) i
+
+/-- a call of `Data` by the importer; the event is given with token indices -/
+def emitEv (e : Ev) : M Unit := modify fun st => { st with log := st.log.emit (e.mapTok (encOf st.toks)) }
+
+/-- the attributes the map has written on token `i` so far -/
+def tokAttr (i : Nat) : M Attr := do
+  let st ← get
+  return st.data.attrs (encOf st.toks i)
 
 /-- `addTypeTokens(tokenList, str)` (the tokens only) -/
 def addTypeTokens (n : NodeRec) : Nat → Str → M Unit
@@ -577,11 +612,11 @@ def createTokensFunctionDecl (fuel : Nat) (self : NodeRec) : M Unit :=
       match self.ext.idxOf? (lit "prev") with
       | some i => emitEv (.ref (← extAt self (i + 1)) nameTok)
       | none => pure ()
-    if ((← get).data.attrs nameTok).func.isNone then
+    if (← tokAttr nameTok).func.isNone then
       let fobj := (← get).funcs.size
       modify fun st => { st with funcs := st.funcs.push { tokenDef := nameTok, isConst := endsWith (unquote (getFullType self 0)) " const" } }
       emitEv (.funcDecl (← extAt self 0) nameTok fobj)
-    let fobj ← deref "nameToken->function()" ((← get).data.attrs nameTok).func
+    let fobj ← deref "nameToken->function()" (← tokAttr nameTok).func
     let par1 ← addtoken self ['(']
     for c in self.children do
       let ci ← deref "child in createTokensFunctionDecl" c
@@ -1159,12 +1194,19 @@ def splitLines (s : Str) : List Str :=
 structure Imported where
   toks : Array Tok
   store : AstStore.Store
-  attrs : Nat → Attr
-  varDef : Nat → Nat
+  rawAttrs : Nat → Attr            -- attributes by map name (`encOf`) = `(runEvents initData events).attrs` (Proofs: `importDump_data`)
+  rawVarDef : Nat → Nat
   funcs : Array Func
   ops : List AstStore.Op
-  events : List Ev
-  enumName : Nat → Option Nat     -- enumerator object ↦ name token
+  events : List Ev                 -- tokens by map name
+  
+/-- attributes by token index -/
+def Imported.attrs (im : Imported) (i : Nat) : Attr := im.rawAttrs (encOf im.toks i)
+/-- Variable object ↦ index of its name token -/
+def Imported.varDef (im : Imported) (o : Nat) : Nat := im.rawVarDef o / 2
+/-- enumerator object ↦ index of its name token -/
+def Imported.enumName (im : Imported) (o : Nat) : Option Nat :=
+  im.events.findSome? fun e => match e with | .enumDecl _ t o' => if o' = o then some (t / 2) else none | _ => none
 
 /-- run the AST setter calls; an InternalError of the cycle check aborts the import -/
 def runOps (s : AstStore.Store) : List AstStore.Op → Except Err AstStore.Store
@@ -1191,9 +1233,8 @@ def importDump (file0 : Str) (text : Str) : Except Err Imported :=
       match runOps (AstStore.init st.toks.size) (st.ops.toList.map SetOp.toOp) with
       | .error e => .error e
       | .ok store =>
-        let enumName := fun o => (st.events.toList.findSome? fun e => match e with | .enumDecl _ t o' => if o' = o then some t else none | _ => none)
-        .ok { toks := st.toks, store := store, attrs := st.data.attrs, varDef := st.data.varDef, funcs := st.funcs,
-              ops := st.ops.toList.map SetOp.toOp, events := st.events.toList, enumName := enumName }
+        .ok { toks := st.toks, store := store, rawAttrs := st.log.data.attrs, rawVarDef := st.log.data.varDef, funcs := st.funcs,
+              ops := st.ops.toList.map SetOp.toOp, events := st.log.evs.toList }
 
 /-! ## Part 3: the invariant checker run on the token list the REAL importer produced
 
